@@ -128,6 +128,18 @@ mut("c09-float-repr-lossy", SS, "class FloatString(StringSerializable, float):\n
 mut("c09-time-repr-drops-fraction", SD, "class IsoTimeString(StringSerializable, time):", "class IsoTimeString(StringSerializable, time):\n    def isoformat(self, *a):\n        return time.strftime(self, '%H:%M:%S')\n", ["C09"])
 mut("c09-detect-swallow-all", G, "                except ValueError:\n                    continue\n                return t", "                except ValueError:\n                    continue\n                except Exception:\n                    pass\n                return t", ["C09"], kind="neutral")
 mut("c09-bool-detected-before-parse", G, "            for t in self.str_types_registry:\n                try:\n                    value = t.to_internal_value(value)", "            for t in self.str_types_registry:\n                try:\n                    if t.__name__ == 'BooleanString' and value.strip().lower() in ('true', 'false'):\n                        return t\n                    value = t.to_internal_value(value)", ["C09"])
+# ---- C10 ----------------------------------------------------------------------------------------------
+mut("c10-limit-inclusive", CX, "            if limit is None or len(self.literals) < limit:", "            if limit is None or len(self.literals) <= limit:", ["C10"])
+mut("c10-length-boundary-off-by-one", CX, "                    lambda s: len(s) >= self.MAX_STRING_LENGTH,", "                    lambda s: len(s) > self.MAX_STRING_LENGTH,", ["C10"])
+mut("c10-hard-limit-off-by-one", CX, "                len(literals) > self.MAX_LITERALS", "                len(literals) >= self.MAX_LITERALS", ["C10"])
+mut("c10-attrs-literals-enabled", MA, "            StringLiteral.TypeStyle.use_literals: False", "            StringLiteral.TypeStyle.use_literals: True", ["C10"])
+mut("c10-naive-quoting", CX, "                    _python_string_literal(s)\n", "                    '\"%s\"' % s\n", ["C10"])
+mut("c10-hash-string-ambiguous-reintroduced", CX, "        literals = '...' if self._overflow else json.dumps(sorted(self._literals))", "        literals = self._repr_literals()", ["C10"])
+# ---- C11 ----------------------------------------------------------------------------------------------
+mut("c11-alias-unescaped-reintroduced", MP, "json.dumps(name, ensure_ascii=False)", "f'\"{name}\"'", ["C11", "C03"])
+mut("c11-attrs-metadata-python-name", MA, "            body_kwargs[\"metadata\"] = {METADATA_FIELD_NAME: name}", "            body_kwargs[\"metadata\"] = {METADATA_FIELD_NAME: data[\"name\"]}", ["C11", "C04"])
+mut("c11-dataclass-metadata-dropped-for-keywords", MD, "        if not self.no_meta and name != data[\"name\"]:", "        if not self.no_meta and name != data[\"name\"] and name + '_' != data[\"name\"]:", ["C11", "C04"])
+mut("c11-alias-ascii-only", MP, "json.dumps(name, ensure_ascii=False)", "json.dumps(name.encode('ascii', 'ignore').decode())", ["C11"])
 # ---- neutral (behaviour preserving) -------------------------------------------------------------------
 mut("neutral-rename-local", G, "        fields_sets = [self._convert(data) for data in data_variants]\n        fields = self.merge_field_sets(fields_sets)",
     "        variants = [self._convert(data) for data in data_variants]\n        fields = self.merge_field_sets(variants)", ["C01", "C02", "C05"], kind="neutral")
